@@ -36,7 +36,7 @@ def main():
     failures = []
 
     def fail(what, detail):
-        if len(failures) < 10 and sum(1 for f in failures if f["what"] == what) < 3:
+        if len(failures) < 40 and sum(1 for f in failures if f["what"] == what) < 3:
             failures.append({"what": what, "detail": detail})
 
     counter = [0]
@@ -114,6 +114,9 @@ def main():
             st.write_midx()
         if "commit-graph" in which:
             st.write_commit_graph()
+        if "commit-graph(reachable=False)" in which:
+            # the documented tips-only variant: a graph that is not closed under parents
+            st.write_commit_graph([v for k, v in sorted(r.refs.as_dict().items()) if k.startswith(b"refs/heads/")], reachable=False)
         if "packed-refs" in which:
             r.refs.pack_refs(all=True)
         return None
@@ -146,6 +149,30 @@ def main():
                     del r.refs[ref]
             st.repack()
             G.garbage_collect(r, grace_period=0, auto=False) if hasattr(G, "garbage_collect") else None
+        elif how == "rewrite-same-name":
+            # every pack rewritten with the same objects (hence the same name) but another layout: reversed order, no deltas,
+            # no compression - what another core.compression / window setting or a pack copied from another clone gives
+            from dulwich.pack import write_pack
+            for p_ in list(st.packs):
+                base = p_._basename
+                objs = [(o, None) for o in p_.iterobjects()]
+                objs.reverse()
+                p_.close()
+                for ext in (".pack", ".idx"):
+                    os.chmod(base + ext, 0o644)
+                write_pack(base, objs, r.object_format if hasattr(r, "object_format") else st.object_format, deltify=False, compression_level=0)
+        elif how == "graft":
+            # info/grafts: the tip's parents are replaced by the oldest commit (grafts win over the commit objects and over any accelerator)
+            tip = r.refs[b"refs/heads/main"]
+            first = ids[sorted(k for k in ids if k != "tag")[0]]
+            if tip != first:
+                os.makedirs(os.path.join(r.path, ".git", "info"), exist_ok=True)
+                with open(os.path.join(r.path, ".git", "info", "grafts"), "wb") as gf:
+                    gf.write(tip + b" " + first + b"\n")
+        elif how == "shallow":
+            # .git/shallow names the tip although its parents are present: they are cut off all the same
+            with open(os.path.join(r.path, ".git", "shallow"), "wb") as sf:
+                sf.write(r.refs[b"refs/heads/main"] + b"\n")
         elif how == "foreign-files":
             # accelerator files of ANOTHER repository (different packs, different commits) dropped in
             for rel in ("objects/info/commit-graph", "objects/pack/multi-pack-index"):
@@ -171,9 +198,10 @@ def main():
             if fn.endswith(".bitmap") or fn.endswith(".rev"):
                 os.remove(os.path.join(pd, fn))
 
-    def answers(path, universe, commits):
-        """the query battery; every answer is a plain value or ('exc', class name)"""
-        r = Repo(path)
+    def answers(path, universe, commits, repo=None):
+        """the query battery; every answer is a plain value or ('exc', class name)
+        (repo: answer with THIS long-lived Repo object - the one that wrote the accelerators - instead of a fresh one)"""
+        r = Repo(path) if repo is None else repo
         st = r.object_store
         out = {}
 
@@ -204,14 +232,16 @@ def main():
                 q(f"reachable:{c}", lambda c=c: sorted(st.get_reachability_provider().get_reachable_objects([universe[c]])))
                 q(f"transfer:0->{c}", lambda c=c: sorted(x[0] if isinstance(x, tuple) else x for x in MissingObjectFinder(st, haves=[], wants=[universe[c]])))
         finally:
-            r.close()
+            if repo is None:
+                r.close()
         return out
 
     shapes = ["chain", "merge", "roots+tag", "octopus"]
     subsets = [s for k in range(0, len(ACCEL) + 1) for s in itertools.combinations(ACCEL, k)]
-    stale = ["nothing", "new-loose", "new-pack", "repack", "delete-ref+prune", "foreign-files"]
+    stale = ["nothing", "new-loose", "new-pack", "repack", "delete-ref+prune", "foreign-files", "rewrite-same-name", "graft", "shallow"]
     if tier == "quick":
         subsets = [s for s in subsets if len(s) in (1, 4)]
+    subsets.append(("commit-graph(reachable=False)",))
     with tempfile.TemporaryDirectory() as d:
         # the "other" repository whose accelerator files are dropped in
         other = os.path.join(d, "other")
@@ -245,8 +275,13 @@ def main():
                                     o = r.object_store[c]
                                 except KeyError:
                                     continue
+                                except Exception as e:  # noqa: BLE001
+                                    fail("reading an object raises with (stale) acceleration data present", dict(what, object=k, exc=repr(e)[:200]))
+                                    continue
                                 if isinstance(o, Commit):
                                     universe[k + ".tree"] = o.tree
+                            # the process that WROTE the accelerators keeps using them in memory (bitmaps are only consulted there)
+                            a_live = answers(p, universe, [k for k in universe if "." not in k and k != "tag"], repo=r)
                         finally:
                             r.close()
                         commits = [k for k in universe if "." not in k and k != "tag"]
@@ -255,10 +290,20 @@ def main():
                         strip_accel(bare)
                         a1 = answers(p, universe, commits)
                         a0 = answers(bare, universe, commits)
+                        # (a live Repo object does not re-read info/grafts or shallow written behind its back: not compared)
+                        diff_live = [k for k in a0 if a0[k] != a_live.get(k)] if how not in ("graft", "shallow") else []
+                        if diff_live and all(k.startswith("reachable:") for k in diff_live) and "bitmap" in which:
+                            # own label (known finding): the two ObjectReachabilityProvider implementations disagree on what
+                            # get_reachable_objects means; every other in-process difference is still a violation
+                            fail("get_reachable_objects of the bitmap provider differs from the graph-walk provider (in the generating process)", dict(what, query=diff_live[0], without=repr(a0[diff_live[0]])[:200], in_process=repr(a_live.get(diff_live[0]))[:200]))
+                        elif diff_live and which != ("commit-graph(reachable=False)",):
+                            k = diff_live[0]
+                            fail("an answer of the process that wrote the acceleration data differs from the accelerator-free answer", dict(what, query=k, without=repr(a0[k])[:200], in_process=repr(a_live.get(k))[:200], differing_queries=len(diff_live)))
                         diff = [k for k in a0 if a0[k] != a1.get(k)]
                         if diff:
                             k = diff[0]
-                            fail("an answer changes with (stale) acceleration data present", dict(what, query=k, without=repr(a0[k])[:200], with_files=repr(a1.get(k))[:200], differing_queries=len(diff)))
+                            fail("an answer changes with a tips-only commit-graph (write_commit_graph(reachable=False)) present" if which == ("commit-graph(reachable=False)",)
+                                 else "an answer changes with (stale) acceleration data present", dict(what, query=k, without=repr(a0[k])[:200], with_files=repr(a1.get(k))[:200], differing_queries=len(diff)))
                         shutil.rmtree(p, ignore_errors=True)
                         shutil.rmtree(bare, ignore_errors=True)
         # ---- accelerators written by C git: a split commit-graph chain (two layers), a git-written midx and bitmap
@@ -297,6 +342,71 @@ def main():
                     fail("an answer changes with C git-written acceleration data present", dict(what, query=diff[0], without=repr(a0[diff[0]])[:200], with_files=repr(a1.get(diff[0]))[:200], differing_queries=len(diff)))
             except Exception as e:  # noqa: BLE001
                 fail("C git accelerator scenario raised", dict(what, exc=repr(e)[:200]))
+        # ---- bitmaps over several packs, in the generating process: one pack per commit (no pack is closed under reachability)
+        for shape in shapes:
+            cases += 1
+            p = os.path.join(d, f"multi_{shape}")
+            os.mkdir(p)
+            r = Repo.init(p)
+            try:
+                real_add = r.object_store.add_object
+                # every commit of the history goes into a pack of its own (objects are packed as soon as a commit is added)
+
+                def add_and_pack(o, real_add=real_add, st_=r.object_store):
+                    real_add(o)
+                    if isinstance(o, Commit):
+                        st_.pack_loose_objects()
+                r.object_store.add_object = add_and_pack
+                ids = history(r, shape)
+                del r.object_store.add_object
+                universe = dict(ids)
+                commits = [k for k in universe if k != "tag"]
+                bare = p + "_bare"
+                shutil.copytree(p, bare, symlinks=True)
+                r.object_store.generate_pack_bitmaps({k: v for k, v in r.refs.as_dict().items() if k != b"HEAD"})
+                a_live = answers(p, universe, commits, repo=r)
+                a0 = answers(bare, universe, commits)
+                diff_live = [k for k in a0 if a0[k] != a_live.get(k) and not k.startswith("reachable:")]
+                if diff_live:
+                    fail("an answer of the process that wrote bitmaps over several packs differs from the accelerator-free answer", {"history": shape, "query": diff_live[0], "without": repr(a0[diff_live[0]])[:200], "in_process": repr(a_live.get(diff_live[0]))[:200], "differing_queries": len(diff_live)})
+                shutil.rmtree(bare, ignore_errors=True)
+            except Exception as e:  # noqa: BLE001
+                fail("multi-pack bitmap scenario raised", {"history": shape, "exc": repr(e)[:200]})
+            finally:
+                r.close()
+        # ---- packed-refs cache of a long-lived reader: another writer replaces packed-refs by a file of the SAME size and the SAME
+        #      mtime (a ref moved to another id, mtime forced): the reader must notice (inode / ctime differ) and answer like a fresh one
+        for shape in shapes:
+            cases += 1
+            p = os.path.join(d, f"cache_{shape}")
+            os.mkdir(p)
+            r = Repo.init(p)
+            try:
+                ids = history(r, shape)
+                r.refs.pack_refs(all=True)
+                names = sorted(k for k in r.refs.as_dict() if k.startswith(b"refs/heads/"))
+                reader = Repo(p)
+                before = dict(reader.refs.as_dict())                  # cache populated
+                pr = os.path.join(p, ".git", "packed-refs")
+                stt = os.stat(pr)
+                vals = sorted(set(ids.values()))
+                moved = names[0]
+                newval = [v for v in vals if v != before[moved]][0]
+                writer = Repo(p)
+                writer.refs.add_packed_refs({moved: newval})
+                writer.close()
+                os.utime(pr, ns=(stt.st_atime_ns, stt.st_mtime_ns))
+                fresh = Repo(p)
+                want = dict(fresh.refs.as_dict())
+                fresh.close()
+                got = dict(reader.refs.as_dict())
+                reader.close()
+                if os.stat(pr).st_size == stt.st_size and (got != want or want.get(moved) != newval):
+                    fail("a long-lived reader answers from a stale packed-refs cache", {"history": shape, "ref": moved.decode(), "reader": got.get(moved, b"").decode(), "fresh": want.get(moved, b"").decode()})
+            except Exception as e:  # noqa: BLE001
+                fail("packed-refs cache scenario raised", {"history": shape, "exc": repr(e)[:200]})
+            finally:
+                r.close()
         # ---- packed-refs: the same ref operations on a repository whose refs were packed first and on a byte copy that never packed
         for shape in shapes:
             base = os.path.join(d, f"refs_{shape}")
